@@ -61,6 +61,9 @@ CHECKS["C10"] = dict(cat="proof", tech=TECH,
 CHECKS["C08"] = dict(cat="proof", tech=TECH,
    text="Contracts on Antenna.apply_response (filtered copy times gains and efficiency, antenna factor exactly for fields, rejections, frame), on the antenna-coordinate transformation (invariance under common rotations about each axis, spherical coordinates of the frame components), dipole gains and AntennaSystem delegation.",
    note=PROOF_NOTE + " Linearity composes the proved value-independence of the factor with C05's filter linearity (A5); the Butterworth response is N.", ref="§5 C08")
+CHECKS["C05"] = dict(cat="proof", tech=TECH,
+   text="Contracts on Signal.filter_frequencies, Signal._get_filter_response and FunctionSignal._apply_filters, executed over an abstract array algebra: additivity and homogeneity in the values, homogeneity in the response, identity for the unit response, reading the grid only through its length and spacing, the Hermitian-mirrored response under force_real (vectorised and per-frequency paths, the latter by a loop invariant), passivity and absence of wrap-around for a pure delay.",
+   note=PROOF_NOTE + " fft/ifft/real/concatenate/prefix are known to the verifier only through the laws listed in pyvc/absarr.py (A5: assumed, cross-checked numerically against numpy/scipy on every run); obligations the solver leaves open are searched natively for a failing input and stay undecided when none is found.", ref="§5 C05")
 NOT_YET = {}
 def main():
     props = [json.loads(l) for l in open(os.path.join(HERE, "properties.jsonl"))]
